@@ -246,11 +246,15 @@ class Server:
           in the servlet will eventually see the sentinel and exit.
         - Wait for the servlet and all helper threads to exit.
         """
-        self.servlet.stop()
-        self._gather_thread.join()
         if self._onboard_thread is not None:
+            # Send the end marker through the input buffer, so that it enters
+            # the input queue *behind* every request accepted so far (e.g. those of an
+            # abandoned stream). If the marker overtook them, the workers would
+            # exit first and the onboarding thread would block on the full pipe forever.
             self._input_buffer.put(None)
             self._onboard_thread.join()
+        self.servlet.stop()
+        self._gather_thread.join()
 
     def call(self, x, /, *, timeout: int | float = 60, backpressure: bool = True):
         """
@@ -519,6 +523,10 @@ class AsyncServer:
         return self
 
     async def __aexit__(self, *args):
+        if self._onboard_thread is not None:
+            # See `Server.__exit__`.
+            self._input_buffer.put(None)
+            self._onboard_thread.join()
         self.servlet.stop()
         self._gather_thread.join()
 
@@ -536,10 +544,6 @@ class AsyncServer:
                     await asyncio.wait_for(pipenotfull.wait(), 0.01)
                 except asyncio.TimeoutError:
                     pass
-
-        if self._onboard_thread is not None:
-            self._input_buffer.put(None)
-            self._onboard_thread.join()
 
     async def call(self, x, /, *, timeout: int | float = 60, backpressure: bool = True):
         """
